@@ -4,7 +4,9 @@
    This file only restates the property theorems; proofs are in frame/*Proofs.v. *)
 From Coq Require Import List NArith ZArith Bool.
 From JV Require Import Bytes FrameBase FrameBaseProofs FrameSpec Split SplitProofs Hdr HdrProofs
-  HdrSpec HdrSpecProofs JsonScan RawJson RawJsonProofs.
+  HdrSpec HdrSpecProofs JsonScan JsonScanProofs RawJson RawJsonProofs.
+From RecordUpdate Require Import RecordUpdate.
+From JV Require Import Msg SrvModel SrvC12.
 Import ListNotations.
 Local Open Scope N_scope.
 
@@ -87,6 +89,20 @@ Theorem c12_hdr_truncation_payload : forall p mt rs r a b st,
 Proof. exact hdr_truncation_payload. Qed.
 Print Assumptions c12_hdr_truncation_payload.
 
+(* truncation anywhere inside a record - in its header block or in its payload: the complete
+   records, then an error and NO bytes (err_tail e = [IErr e] or [IErr e; IErr EEOF]).  The one
+   exception is stated exactly: an EMPTY record whose header block lacks only its final LF is
+   returned (complete, empty, not shortened). *)
+Theorem c12_hdr_truncation : forall p mt rs r pre suf st,
+  usable_mime mt = true -> st <= buf_bound ->
+  Forall (fun r => (Z.of_nat (length r) <= max_int)%Z) rs -> (Z.of_nat (length r) <= max_int)%Z ->
+  HdrProofs.enc mt r = pre ++ suf -> pre <> [] -> suf <> [] ->
+  exists tail,
+    Hdr.recv_all cfg_fixed p mt st (concat (map (HdrProofs.enc mt) rs) ++ pre) = map IRec rs ++ tail /\
+    ((exists e, tail = err_tail e) \/ (r = [] /\ suf = [10] /\ tail = [IRec []; IErr EEOF])).
+Proof. exact hdr_truncation. Qed.
+Print Assumptions c12_hdr_truncation.
+
 Theorem c12_hdr_exhausted : forall c p want st,
   Hdr.recv c p want st [] = Err EEOF st [] /\ Hdr.recv_all c p want st [] = [IErr EEOF].
 Proof. exact hdr_exhausted. Qed.
@@ -121,13 +137,67 @@ Theorem c12_header_rules : forall p want st s ct r rest,
 Proof. exact hdr_complete. Qed.
 Print Assumptions c12_header_rules.
 
-(* ---- RawJSON (partial: see RawJsonProofs.v) ---- *)
+(* ---- RawJSON ---- *)
 
-Theorem c12_rawjson_never_panics_partial : forall st s,
-  match RawJson.recv st s with Crash _ => False | _ => True end.
-Proof. exact rawjson_never_panics_partial. Qed.
-Print Assumptions c12_rawjson_never_panics_partial.
+(* one Recv on any stream, in any decoder state: no panic, no fuel exhaustion *)
+Theorem c12_rawjson_total_no_crash : forall st s,
+  match RawJson.recv st s with Crash _ | OutOfFuel => False | _ => True end.
+Proof. exact rawjson_total_no_crash. Qed.
+Print Assumptions c12_rawjson_total_no_crash.
+
+Theorem c12_rawjson_no_crash_all : forall s, clean (RawJson.recv_all s).
+Proof. exact rawjson_recv_all_clean. Qed.
+Print Assumptions c12_rawjson_no_crash_all.
+
+(* the scanner's fuel suffices on every input, and a value consumes at least one byte *)
+Theorem c12_rawjson_scan_fuel : forall s,
+  match scan s with NoFuel => False | Done r => (length r + 1 <= length s)%nat | _ => True end.
+Proof. exact scan_fuel_ok. Qed.
+Print Assumptions c12_rawjson_scan_fuel.
+
+(* once Recv has failed it keeps failing with the same error; an exhausted stream is io.EOF *)
+Theorem c12_rawjson_sticky : forall e s, RawJson.recv (Some e) s = Err e (Some e) s.
+Proof. exact rawjson_sticky. Qed.
+Print Assumptions c12_rawjson_sticky.
 
 Theorem c12_rawjson_exhausted : forall j, all_ws j -> RawJson.recv_all j = [IErr EEOF].
 Proof. exact rawjson_exhausted. Qed.
 Print Assumptions c12_rawjson_exhausted.
+
+(* soundness of the framing layer: a record returned by Recv is a contiguous span of the stream -
+   white space, then the bytes of exactly one JSON value as the scanner delimits it (null is
+   returned as the empty record) - and [rest] is everything after it *)
+Theorem c12_rawjson_sound : forall st s r st' rest,
+  RawJson.recv st s = Ok r st' rest ->
+  st = None /\ st' = None /\
+  exists j raw, s = j ++ raw ++ rest /\ all_ws j /\
+                (exists c t, raw = c :: t /\ is_ws c = false) /\
+                scan (raw ++ rest) = Done rest /\
+                r = (if is_null raw then [] else raw).
+Proof. exact rawjson_sound. Qed.
+Print Assumptions c12_rawjson_sound.
+
+(* truncation: complete records followed by a proper, non-empty prefix of a JSON object, array or
+   string: the complete records, then an error and no (shortened) record *)
+Theorem c12_rawjson_truncation : forall rs r pre suf,
+  Forall (fun r => r = [] \/ json_record r = true) rs -> json_record r = true ->
+  r = pre ++ suf -> pre <> [] -> suf <> [] ->
+  exists e, RawJson.recv_all (concat (map RawJsonProofs.enc rs) ++ pre) = map IRec rs ++ [IErr e].
+Proof. exact rawjson_truncation. Qed.
+Print Assumptions c12_rawjson_truncation.
+
+(* ---- the server and a final record delivered together with io.EOF ---- *)
+
+(* SrvModel handles [FMsgEOF i] (record returned WITH io.EOF) exactly like [FMsg i] wherever it
+   looks at a feed: the reader's critical section is the same, LFeed only enqueues it, an idle reader
+   picks it up, LRelRead runs the critical section of a plain record; while the server runs the
+   reader returns to idle and sees the separately fed [FErr SCEOF] next *)
+Theorem c12_server_final_record : forall i s,
+  read_cs (FMsgEOF i) s = read_cs (FMsg i) s /\
+  step_raw s (LFeed (FMsgEOF i)) = Some (s <| ch_in ::= fun q => q ++ [FMsgEOF i] |>, []) /\
+  (forall q, rd s = RIdle -> ch_in s = FMsgEOF i :: q ->
+             settle1 s = Some (s <| rd := RHold (FMsgEOF i) |> <| ch_in := q |>, [])) /\
+  (rd s = RHold (FMsgEOF i) -> step_raw s LRelRead = Some (read_cs (FMsg i) s)) /\
+  (forall s' os, read_cs (FMsgEOF i) s = (s', os) -> rd s' = if running s then RIdle else RExited).
+Proof. exact srv_final_record. Qed.
+Print Assumptions c12_server_final_record.
